@@ -396,8 +396,8 @@ PLANS = {
     "C15": dict(attr=["C15.", "C02.content"], mc=lambda t: MC_STORE_Q + [_mc("MCScan.tla", "MCScan_all8.cfg"), _mc("MCScan.tla", "MCScan_n32.cfg")], workloads=wl_readonly, assumptions=COMMON_ASSUME),
     "C18": dict(attr=["C18."], mc=lambda t: MC_STORE_Q, workloads=wl_twice, assumptions=COMMON_ASSUME),
     "C02": dict(attr=["C02.", "C01.result", "C01.outcome", "C05.content"], mc=lambda t: mc_buf(t) + mc_db(t), workloads=wl_reopen, assumptions=COMMON_ASSUME),
-    "C03": dict(attr=["C03."], mc=lambda t: mc_buf(t, "pinned"), workloads=wl_sync, assumptions=COMMON_ASSUME),
-    "C16": dict(attr=["C16.", "C03.outcome", "C01.result"], mc=lambda t: mc_buf(t, "clearearly"), workloads=wl_fault, assumptions=COMMON_ASSUME),
+    "C03": dict(attr=["C03."], mc=lambda t: mc_buf(t, "pinned"), proofs=["AbyBufProofs.tla"], workloads=wl_sync, assumptions=COMMON_ASSUME),
+    "C16": dict(attr=["C16.", "C03.outcome", "C01.result"], mc=lambda t: mc_buf(t, "clearearly"), proofs=["AbyBufProofs.tla"], workloads=wl_fault, assumptions=COMMON_ASSUME),
     "C04": dict(attr=["C04.", "C01.outcome"], mc=mc_scan, workloads=wl_iter, assumptions=COMMON_ASSUME),
     "C08": dict(attr=["C08.", "C01.result", "C01.outcome", "C05.content", "C05.count"], mc=mc_reloc, workloads=wl_reloc, assumptions=COMMON_ASSUME),
     "C01": dict(attr=["C01."], mc=lambda t: mc_store(t), workloads=wl_core, assumptions=COMMON_ASSUME),
